@@ -783,6 +783,25 @@ func c12Stages(r *h.Result, rng *h.Rng, tier string) error {
 			add("status-prom", cs, op)
 		}
 	}
+	// the remaining controllers (c12status.go)
+	r.Stream("status-all: real routers, every other registered read handler (Loki labels / label values / series / tail up to the upgrade, Prometheus labels / label values / series / metadata / instant query, Tempo search / tags v1,v2 / tag values v1,v2 / echo, Pyroscope ProfileTypes / LabelNames / LabelValues / SelectMergeStacktraces / SelectSeries / SelectMergeProfile / Series / GetProfileStats / Settings / render-diff, static answers): HTTP status class vs the step models of ReadSide/Controllers.lean fed with the stdlib parsers' outcomes (ParseInt, Atoi, ParseDuration, RFC3339-or-seconds, form + schema decoding), the real query / selector parsers' verdicts and the database script")
+	sgens := c12StatusGens()
+	per := 12
+	if tier != "quick" {
+		per = 250
+	}
+	if os.Getenv("C12_ONLY") == "status-all" {
+		cases, ops, streams = nil, nil, nil
+		per *= 4
+	}
+	for _, g := range sgens {
+		gr := fr.Fork()
+		for i := 0; i < per; i++ {
+			cs, op := g.gen(gr)
+			cs.Class = "tie"
+			add("status-all", cs, op)
+		}
+	}
 	js, err := c12RunCases(cases, tier, 4)
 	if err != nil {
 		return err
@@ -802,12 +821,12 @@ func c12Stages(r *h.Result, rng *h.Rng, tier string) error {
 			continue // already a violation; there is no answer to compare
 		}
 		mod := model[i]
-		if streams[i] == "status" || streams[i] == "status-prom" {
+		if streams[i] == "status" || streams[i] == "status-prom" || streams[i] == "status-all" {
 			mod = strings.TrimSuffix(mod, "e") // a stream error keeps the 200 already sent
 		}
 		implOf := func(o *c12Outcome) string {
 			impl := o.StageOut
-			if streams[i] == "status" || streams[i] == "status-prom" {
+			if streams[i] == "status" || streams[i] == "status-prom" || streams[i] == "status-all" {
 				impl = fmt.Sprintf("%d", o.Status/100*100)
 			}
 			if streams[i] == "status-prom" && mod == "200" && impl == "500" {
